@@ -77,5 +77,5 @@ Proof. exact ss_full_run_split. Qed.
 Theorem C10_dispatched_train : forall fuel_bp fuel_steps (net : list LinkR) (tp : TPR) tl rp fmax fb st cache (con : ConsistR) x',
   sl_timed_walk fuel_bp fuel_steps net tp tl rp fmax fb st cache con = Ok x' -> cinv con ->
   cinv (snd x') /\ cn_pdct (snd x') = cn_pdct con /\
-  tw_trace fmax (split_step (cn_pdct con)) ({| sl_st := st; sl_cache := cache; sl_fb := fb; sl_idx := 0 |}, con) x'.
+  tw_trace fmax any_pts (split_step (cn_pdct con)) ({| sl_st := st; sl_cache := cache; sl_fb := fb; sl_idx := 0 |}, con) x'.
 Proof. exact sl_timed_walk_split. Qed.
